@@ -63,6 +63,46 @@ def check_builder(inp):
     return _judge(ver, interact.expected_prefix(version), "string returned by the interactive builder", r["value"])
 
 
+ODD_VERSIONS = (["float", "3.5"], ["float", "3.2"], ["float", "3.01"], ["float", "3.1000000000000005"], ["float", "3.0999999999999996"], ["float", "3.9999"],
+                ["decimal", "3.1"], ["decimal", "3.0"], ["decimal", "3.10"], ["fraction", "31/10"], ["fraction", "3"], ["decimal", "2"], ["decimal", "4.0"],
+                ["float", "2.0"], ["float", "2.5"], ["float", "4.0"], ["float", "4.5"], ["int", "3"], ["int", "4"], ["int", "2"], ["int", "5"], ["bool", "True"],
+                ["float", "nan"], ["float", "3.0000000000000004"], ["float", "2.0000000000000004"], ["float", "1e400"])
+
+
+def odd_version(spec_):
+    kind, text = spec_
+    if kind == "float":
+        return float(text)
+    if kind == "int":
+        return int(text)
+    if kind == "bool":
+        return text == "True"
+    if kind == "decimal":
+        import decimal
+        return decimal.Decimal(text)
+    from fractions import Fraction
+    return Fraction(text)
+
+
+def check_builder_version(inp):
+    """
+    the version argument as any NUMBER (3.5, Decimal('3.1'), 3.0000000000000004 ...): the builder may refuse it (an exception
+    before or instead of a dialogue is no returned string) - but a string it RETURNS is an emitted vector like any other:
+    accepted by one of the library's classes and matching that version's official pattern.
+    """
+    version = odd_version(inp["version"])
+    r = interact.run_builder(version, inp["all_metrics"], True, inp["answers"], cycle=True)
+    if r["kind"] != "ret":
+        return []
+    s = r["value"]
+    for ver in spec.VKEYS:
+        if obs.construct(ver, s)[0] == "ok":
+            V = spec.VERS[ver]
+            prefix = next((p for p in V.prefixes if s.startswith(p)), "")
+            return _judge(ver, prefix, "string returned by ask_interactively(%s(%s))" % tuple(inp["version"]), s)
+    return [failure("a vector that one of CVSS2 / CVSS3 / CVSS4 accepts", s, note="string returned by ask_interactively(%s(%s), all_metrics=%s)" % (inp["version"][0], inp["version"][1], inp["all_metrics"]))]
+
+
 def check_emitted_accepted(inp):
     """whatever string the constructor accepts (grammar or not: that is C04's business), what the object then EMITS
     must be valid; rejected strings are outside the domain"""
@@ -84,7 +124,7 @@ def check_emitted_accepted(inp):
     return fails
 
 
-CHECKS = {"emitted": check_emitted, "builder": check_builder, "emitted_accepted": check_emitted_accepted}
+CHECKS = {"emitted": check_emitted, "builder": check_builder, "emitted_accepted": check_emitted_accepted, "builder_version": check_builder_version}
 
 
 def covering():
@@ -185,6 +225,12 @@ def run(tier, t0):
     for ver, s in covering():
         part.count(None, classes=("covering",))
         part.check("emitted", check_emitted, {"ver": ver, "s": s})
+    for i, ov in enumerate(ODD_VERSIONS):
+        for allm in (False, True):
+            # answers: a cycle through values legal somewhere, so that any dialogue the builder starts comes to an end
+            inp = {"version": list(ov), "all_metrics": allm, "answers": ["n", "l", "h", "x", "nd", "u", "a", "p", "", "c", "s", "r", "m", "o", "of", "clear"]}
+            part.count(inp, nontrivial=True, classes=("builder:version-argument",))
+            part.check("builder_version", check_builder_version, inp)
     for p in runner.parallel("vf.props.c08", "ball_part", [(sh, 1 if tier == "quick" else 12, runner.SEED) for sh in range(runner.NPROC)]):
         part.merge(p)
     part.merge(runner.hyp_shards("vf.props.c08", "hyp_part", 6400 if tier == "quick" else 200000))
@@ -196,4 +242,4 @@ def run(tier, t0):
             "modes. non-trivial = vector with >= 2 optional groups defined, or an all-metrics builder run; distinct by hash")
     return runner.finish(part, tier, t0, rule,
                          ["official grammar = vectorString pattern of the pinned FIRST schemas (re.fullmatch)", "coverage-guided (builder results): " + fuzz_note],
-                         required=("covering", "v2", "v3", "v4", "groups=0", "groups=2", "builder:all", "builder:mandatory", "with-prior-calls", "fresh-object", "mutant", "one-edit-ball-member-tried"))
+                         required=("covering", "v2", "v3", "v4", "groups=0", "groups=2", "builder:all", "builder:mandatory", "with-prior-calls", "fresh-object", "mutant", "one-edit-ball-member-tried", "builder:version-argument"))
